@@ -37,8 +37,12 @@ var assumptionsScript = []string{
 	"scripts are valid UTF-8 (the HTTP API decodes JSON, which cannot deliver invalid UTF-8)",
 	"the deadman service handed to CreatePipeline is not global and its id/message templates do not contain NODE_NAME",
 	"no UDF nodes, no global scope functions (time(), influxql builtins): the pure packages are used with stateful.NewScope(), not kapacitor.TaskMaster.CreateTICKScope",
-	"integer constant expressions never divide by a literal zero (C05's subject)",
-	"comments are placed only where the lexer accepts them: not directly before + * / % == != < > <= >= =~ !~ =, not directly after = =~ !~",
+	"constant expressions never divide by zero (integer: C05's subject; float: no Inf/NaN constants) and do not overflow int64 nanoseconds",
+	"comments are placed only where the lexer accepts them: not directly before + * / % == != < > <= >= =~ !~ = (after a comment the lexer is in its top-level state), not directly before a regex literal (a comment line followed by a line starting with '/' is lexed as one comment), not directly after = =~ !~ (\"//\" is an empty regex there)",
+	"a regex literal is written only where the lexer expects an operand (after =~ !~ = ( ,); the empty regex // only directly after =~ !~ =; x =~ /re/ == y is written (x =~ /re/) == y (no comparison operator is recognised after a regex)",
+	"string values ending in a backslash are written in triple quotes (the only way to write them), reference names never end in a backslash (not writable)",
+	"file modes of the alert log handler are positive",
+	"unions/joins combine node vars of the same edge type",
 }
 
 func rejectionClass(err error) string {
@@ -258,6 +262,8 @@ const rulePipeline = "same generator as Script (lighter layout noise); for accep
 	"compared by the id-independent fingerprint; non-trivial = accepted script with >= 3 nodes and a lambda with >= 2 operators of different precedence; distinct by case hash"
 
 var assumptionsPipeline = []string{
+	"each case is checked against one law (json: Marshal -> Unmarshal; tick: pipeline/tick rendering -> CreatePipeline); the generator avoids, per law, what that round trip is known to lose (counted exclusions J*, T*, K*)",
+	"the parameters of InfluxQL function nodes live in closures: the node's own reducers are run on a fixed series and their output is part of the fingerprint (holtWinters excepted: its fit is an expensive optimisation)",
 	"node ids/names are not part of a pipeline's meaning: the comparison uses the canonical fingerprint (multiset of node type + exported properties + ordered parent signatures); NoOp nodes are ignored (pipeline JSON and pipeline/tick drop them by design)",
 	"the re-rendered script needs no vars: pipeline/tick inlines values",
 }
@@ -296,6 +302,12 @@ func runPipeline(r *kit.Rec, c ScriptCase, cc *kit.Case) {
 		return
 	}
 	cc.Label("accepted")
+	cc.Label("law:" + c.Law)
+	for _, l := range c.Labels {
+		if strings.HasPrefix(l, "prop:") || strings.HasPrefix(l, "handler:") {
+			cc.Label(l)
+		}
+	}
 	// render before the pipeline is marshalled for the first time (fingerprint marshals; see Fingerprint.Mutated)
 	s2, tickErr := buildTick(p)
 	fp := fingerprint(p)
@@ -508,21 +520,32 @@ func lambdaLaws(r *kit.Rec, name string, c LambdaCase, l *ast.LambdaNode, cc *ki
 		l   *ast.LambdaNode
 	}{{"", l}}
 	// JSON round trip
-	if !skip(r, c.Witness, exprHas(c.E, isCall), classK1) &&
-		!skip(r, c.Witness, exprHas(c.E, isBigInt), classK4) {
+	if !skip(r, c.Witness, exprHas(c.E, isBigInt), classK4) &&
+		!skip(r, c.Witness, exprHas(c.E, func(e *Expr) bool { return e.K == "call" && len(e.A) == 0 }), classK12) {
+		// K1: function names are known to be lost; for lambdas with calls the comparison is made
+		// modulo function names (types, arguments and structure still count) and the decoded tree is not used further
+		moduloNames := skip(r, c.Witness, exprHas(c.E, isCall), classK1)
+		norm := func(s string) string {
+			if moduloNames {
+				return reFuncName.ReplaceAllString(s, "$1:F(")
+			}
+			return s
+		}
 		l2, b, err := jsonRoundTrip(l)
 		if err != nil {
-			fail(cc, "lambda-json/error", "[%s] JSON round trip of lambda %s fails: %v\njson: %s", name, want, err, clip(string(b), 2000))
+			fail(cc, "lambda-json/error"+jsonErrorClass(err), "[%s] JSON round trip of lambda %s fails: %v\njson: %s", name, want, err, clip(string(b), 2000))
 			return
 		}
-		if got := pp(l2); got != want || !l2.Equal(l) || !l.Equal(l2) {
+		if got := pp(l2); norm(got) != norm(want) || (!moduloNames && (!l2.Equal(l) || !l.Equal(l2))) {
 			fail(cc, "lambda-json/changed"+jsonClass(want, got), "[%s] JSON round trip changed the lambda:\n  before %s\n  after  %s\n  Equal=%v\njson: %s", name, want, got, l2.Equal(l), clip(string(b), 2000))
 			return
 		}
-		variants = append(variants, struct {
-			tag string
-			l   *ast.LambdaNode
-		}{"after-json", l2})
+		if !moduloNames {
+			variants = append(variants, struct {
+				tag string
+				l   *ast.LambdaNode
+			}{"after-json", l2})
+		}
 	}
 	// Format -> parse
 	for _, v := range variants {
@@ -598,9 +621,17 @@ func formatChangeClass(before, after string) string {
 	return ""
 }
 
+var reFuncName = regexp.MustCompile(`(global|chain|property|dynamic):[A-Za-z0-9_]*\(`)
+
+func jsonErrorClass(err error) string {
+	if strings.Contains(err.Error(), "field args is not a list") {
+		return "/function-without-arguments"
+	}
+	return ""
+}
+
 func jsonClass(before, after string) string {
-	strip := regexp.MustCompile(`(global|chain|property|dynamic):[A-Za-z0-9_]*\(`)
-	if strip.ReplaceAllString(before, "F(") == strip.ReplaceAllString(after, "F(") {
+	if reFuncName.ReplaceAllString(before, "$1:F(") == reFuncName.ReplaceAllString(after, "$1:F(") {
 		return "/function-name-lost"
 	}
 	ints := regexp.MustCompile(`i:-?[0-9]+`)
